@@ -70,13 +70,15 @@ def ref_its(rsmi):
     return I
 
 
-def ref_rc(I):
-    """reference reaction centre: the bonds whose two orders differ (or that join two hydrogens) and their endpoints"""
+def ref_rc(I, tolerant=False):
+    """reference reaction centre: the bonds whose two orders differ (or that join two hydrogens) and their endpoints;
+    tolerant (ignore_aromaticity=True): only bonds whose order changes by at least 1"""
     import networkx as nx
     rc = nx.Graph()
     for u, v, d in I.edges(data=True):
         hh = all((I.nodes[x]["lab"][0] or I.nodes[x]["lab"][1] or ("?",))[0] == "H" for x in (u, v))
-        if d["ord"][0] != d["ord"][1] or hh:
+        changed = abs(d["ord"][0] - d["ord"][1]) >= 1 if tolerant else d["ord"][0] != d["ord"][1]
+        if changed or hh:
             for x in (u, v):
                 rc.add_node(x, lab=I.nodes[x]["lab"])
             rc.add_edge(u, v, ord=d["ord"])
